@@ -1,0 +1,16 @@
+//go:build verif
+
+// Verification hooks: exported wrappers around unexported functions.
+// Compiled only with `-tags verif`; add-only, no existing line is changed.
+package extendeddaemonsetsetting
+
+import (
+	corev1 "k8s.io/api/core/v1"
+
+	datadoghqv1alpha1 "github.com/DataDog/extendeddaemonset/api/v1alpha1"
+)
+
+// VerifSearchPossibleConflict exposes searchPossibleConflict.
+func VerifSearchPossibleConflict(instance *datadoghqv1alpha1.ExtendedDaemonsetSetting, nodeList *corev1.NodeList, edsNodeList *datadoghqv1alpha1.ExtendedDaemonsetSettingList) (string, error) {
+	return searchPossibleConflict(instance, nodeList, edsNodeList)
+}
